@@ -21,3 +21,13 @@ package eth
 //@   -- C19: the trust root is installed only if none was installed, and a later attempt fails without touching state
 //@   ensures[c19-once] err == nil ==> old(Store)[genKey(cid)] == None
 //@   ensures[c19-rejected] old(Store)[genKey(cid)] != None ==> err != nil && Store == old(Store)
+
+//@ func GetCurrentHeader
+//@   trusted   -- storage lookups of the tracked chain (canonical index, header records); read-only. That the index is the heaviest valid chain is C27's subject
+//@   modifies nothing
+//@   ensures r2 == nil ==> r0 != nil
+
+//@ func GetHeaderByHeight
+//@   trusted   -- storage lookups of the tracked chain (canonical index, header records); read-only. That the index is the heaviest valid chain is C27's subject
+//@   modifies nothing
+//@   ensures r2 == nil ==> r0 != nil
